@@ -274,6 +274,10 @@ def _check_manager(case, rec, layer):
         e = out.error
         if not isinstance(e, ValueError):
             where = repo_frame(e.__traceback__)
+            if where == "?":
+                # no frame of the tool on the stack: the exception is the harness's own
+                from vlib.core import HarnessError
+                raise HarnessError(f"{type(e).__name__} outside the repository package: {e}") from e
             raise Violation(f"{case['method']}: find_design raised {type(e).__name__}: {e} ({where})",
                             sig={"kind": "exception", "exc": type(e).__name__, "where": where, "method": case["method"]})
         rec.cls("ValueError")
